@@ -82,8 +82,7 @@ def make_scenarios(ctx, count):
         s = H.Scenario("q%d" % i, meta=dict(frames=frames, own=own, mtu=mtu, bridged=bridged))
         s.iface(0, **H.iface_kw(cfg)).glob(**G.global_kw(G.rand_global(rng, icon_size=50)))
         s.add("OPT sleep=0")
-        for fr in frames:
-            s.frame(0, fr)
+        s.frames(0, frames, rng if i % 2 else None, p_gap=0.25, base=True)
         scns.append(s)
     return scns
 
@@ -217,3 +216,4 @@ def run(ctx):
     rep.need("queries_judged", c.get("queries_judged", 0), 2000)
     for name in ("more-bit", "bridged", "direct", "drain>=3-queries", "empty-query", "at-or-over-capacity"):
         rep.need(name, c.get("reach:" + name, 0), 10)
+    rep.need("clock_gaps_between_frames", rep.counters.get("clock_gaps_between_frames", 0), 200)
